@@ -15,8 +15,9 @@ import (
 
 func init() {
 	register("C11", Entry{
-		Title: "Correctable calls publish QF levels and values monotonically; done is final",
-		Run:   runC11,
+		Title:    "Correctable calls publish QF levels and values monotonically; done is final",
+		Run:      runC11,
+		Examples: true,
 		Meta: core.PropertyMeta{
 			Explanation: "K1: every Correctable literal starts at LevelNotSet with no reply/err/done, and the loop's running level starts there too. K2: from the not-done edge of the quorum function's verdict a publication set(v, l, nil, false) is reachable within the same iteration. K3: the value passed to every set on a reply path is result #0 of this iteration's quorum-function call; on the context/exhaustion exits it is the last such value (or nil) with the running level. K4: every intermediate set is guarded by 'level > running level', the running level is only ever assigned the function's level under that guard, and levels passed to set are the function's level or the running level. K5: no set is reachable after a final set; set panics on a done correctable before touching any field; only set closes donech (on the done edge) and only the call goroutine calls set. K6: all accesses to reply/level/err/done/watchers hold Correctable.mu; on completion every watcher is released, otherwise exactly those at or below the level, each slot cleared, no early exit from the loops. K7: Watch appends a watcher only on a not-yet-done edge. K8: generated Correctable*/Async* Get accessors assert the reply type only where the reply is provably non-nil, or use the checked form.",
 			NotDecided:  "Real-time 'at once' (decided as: publication happens in the same iteration as the function call, before the next wait); watcher wake-up latency; K9 (stream exhaustion = every node failed) relies on C07 E6.",
@@ -441,7 +442,9 @@ func c11Set(l *core.Ledger, r *rt) {
 				return
 			}
 			isWL := func(x ssa.Value) bool {
-				return sx.All(sx.Origins(x), func(o sx.Origin) bool { return o.Kind == sx.KField && o.Field != nil && o.Field.Name() == "level" && o.Field.Pkg() != nil })
+				return sx.All(sx.Origins(x), func(o sx.Origin) bool {
+					return o.Kind == sx.KField && o.Field != nil && o.Field.Name() == "level" && o.Field.Pkg() != nil
+				})
 			}
 			le := false
 			switch {
